@@ -24,6 +24,7 @@ type Config struct {
 	Replay   []int       // if set: run exactly this choice sequence once, with a trace
 	AllowDeadlock bool   // a deadlock is an outcome, not a violation (default: violation)
 	AllowTruncated bool
+	Delay bool // delay bounding: any departure from the default (canonical-order) scheduler costs one `preempt` deviation, also at blocking points
 }
 
 // Exec is handed to the body of every execution.
@@ -85,6 +86,7 @@ func Explore(cfg Config, body func(x *Exec)) *Result {
 	runOne := func(prefix []int, trace bool) (*Sched, *Exec) {
 		s := newSched(prefix, &cfg)
 		s.budget = cfg.Budget
+		s.delayMode = cfg.Delay
 		s.usePrune = cfg.Prune && !trace
 		s.visited = visited
 		s.keepTrace = trace
